@@ -33,10 +33,25 @@ func newState() *State {
 
 // VerifyFunction symbolically executes fn against its contract (or a thin
 // safety-only contract when it has none) and returns the obligations.
+// VerifyFunction: first explore path by path (small, easy VCs); if that exceeds the
+// path budget, redo with state merging at post-dominators.
 func (e *Engine) VerifyFunction(fn *ssa.Function) *FuncReport {
+	rep := e.verifyFunction(fn, true)
+	for _, f := range rep.Failed {
+		if strings.Contains(f, "path limit") || strings.Contains(f, "fork limit") || strings.Contains(f, "time limit") || strings.Contains(f, "step limit") {
+			return e.verifyFunction(fn, false)
+		}
+	}
+	return rep
+}
+
+func (e *Engine) verifyFunction(fn *ssa.Function, noMerge bool) *FuncReport {
 	ct := e.contractFor(fn)
 	ex := &Exec{eng: e, root: fn, rootName: shortFn(fn), maxSteps: 3000000, maxPaths: 3000, inlined: map[string]bool{}, usedCtr: map[string]bool{},
-		intrUsed: map[string]bool{}, trivialNames: map[string]string{}, clauseProps: map[string][]string{}, ordinals: map[ssa.Instruction]string{}, maxForks: 200}
+		noMerge: noMerge, intrUsed: map[string]bool{}, trivialNames: map[string]string{}, clauseProps: map[string][]string{}, ordinals: map[ssa.Instruction]string{}, maxForks: 200}
+	if noMerge {
+		ex.maxPaths = 96
+	}
 	rep := &FuncReport{Fn: ex.rootName, HasCtr: ct != nil}
 	if ct == nil {
 		ct = &Contract{Fn: fn.String(), Loops: map[int]*LoopSpec{}, Nullable: map[string]bool{}}
